@@ -180,21 +180,26 @@ Print Assumptions C02_map_entry_type_name.
    package compiles (conversion, link step, link of every imported generated file; the fuel of
    the dependency closure always suffices) *)
 Theorem C02_valid_packages_convert : forall snake camel screaming bd pkg,
-  valid_bundle snake camel bd = true -> (exists f, In f bd /\ bfile_pkg f = pkg) ->
+  valid_bundle snake camel screaming bd = true -> (exists f, In f bd /\ bfile_pkg f = pkg) ->
   exists D, convert_package snake camel screaming bd pkg = Ok D.
 Proof. exact convert_package_total. Qed.
 Print Assumptions C02_valid_packages_convert.
 
 Theorem C02_valid_packages_compile : forall snake camel screaming bd pkg,
-  valid_bundle snake camel bd = true -> (exists f, In f bd /\ bfile_pkg f = pkg) ->
+  valid_bundle snake camel screaming bd = true -> (exists f, In f bd /\ bfile_pkg f = pkg) ->
   exists D, compile_package snake camel screaming bd pkg = Ok D.
 Proof. exact compile_total. Qed.
 Print Assumptions C02_valid_packages_compile.
 
-(* ---- the property at full strength (structural contract: files, messages, enums, fields with
-   name / JSON name / number / type / cardinality / optionality, nesting to any depth), for every
-   name conversion; the service / topic / reference / type-name clauses are the separate theorems
-   above, stated on the same converter functions *)
+(* ---- the package-level statement: every package of a valid bundle compiles (conversion, the
+   linker's symbol table, link step, link of the imported generated files) and satisfies the
+   structural contract of the main generated files (messages, enums, fields with name / JSON
+   name / number / type / cardinality / optionality, nesting to any depth).  [valid] (J5sCorr,
+   J5sValid.valid_bundle with the byte-exact strcase functions) = the documented restrictions
+   plus: no two declarations of a package generate the same proto symbol; every run compares it
+   with acceptance by the real compiler.  The service / topic / reference / type-name clauses
+   are the separate theorems above, stated on the converter functions, not yet part of
+   package_contract. *)
 Definition C02_full_statement : Prop :=
   forall bd pkg, valid bd = true -> (exists f, In f bd /\ bfile_pkg f = pkg) ->
     exists D, compile bd pkg = Ok D /\ package_contract to_snake to_camel to_screaming_snake bd pkg D.
